@@ -10,6 +10,19 @@ const (
 )
 
 var registry = []*HarnessSpec{
+	{Prop: "C19", Name: "zzH19a", Pkg: pkgNetstate, Tier: "quick", Params: map[string]int{"subs": 2, "changes": 3, "subs@thorough": 3, "changes@thorough": 4}, Bounds: "2 (3) subscribers with any non-empty 7-bit mask on one of two interfaces; 3 (4) changes, each any non-zero 7-bit value, on either interface"},
+	{Prop: "C19", Name: "zzH19b", Pkg: pkgNetstate, Tier: "quick", Bounds: "10 matching undrained events"},
+	{Prop: "C19", Name: "zzH19c", Pkg: pkgNetstate, Tier: "quick", Params: map[string]int{"subs": 2, "subs@thorough": 3}, Bounds: "2 (3) subscribers, 0..2 notifications before watching ends"},
+	{Prop: "C19", Name: "zzH19e", Pkg: pkgNetstate, Tier: "quick", Bounds: "every 8-bit operational state"},
+	{Prop: "C10", Name: "zzH10a", Pkg: pkgSystem, Tier: "quick", Unwind: 60, Bounds: "every input error class; DialFunc first succeeds at attempt 0..50 or never (loop unrolled to its 50 attempts)"},
+	{Prop: "C10", Name: "zzH10aCancel", Pkg: pkgSystem, Tier: "quick", Unwind: 60, Bounds: "cancellation during any of the first 4 waits, or none"},
+	{Prop: "C11", Name: "zzH11", Pkg: pkgSystem, Tier: "quick", Unwind: 60, Params: map[string]int{"failures": 1, "rounds": 2, "failures@thorough": 2, "rounds@thorough": 3}, Bounds: "both modes; up to `rounds` task rounds with every task outcome class; at most `failures` failing environment calls placed anywhere (lookup, check, dialNDP x3 classes, autoconf get, autoconf set/restore x3 classes)"},
+	{Prop: "C07", Name: "zzH07send", Pkg: pkgCorerad, Tier: "quick", Bounds: "one sendWorker call: destination all-nodes / any IPv6 address with or without zone, unicast_only, forwarding, header fields symbolic; write succeeds or fails"},
+	{Prop: "C07", Name: "zzH07a", Pkg: pkgCorerad, Tier: "quick", Bounds: "one handle call: RS (with/without source LLA) from any IPv6 / IPv4 / unspecified source; NS; NA"},
+	{Prop: "C04", Name: "zzH04seq", Pkg: pkgCorerad, Tier: "quick", Bounds: "two consecutive sends with independently symbolic forwarding reads"},
+	{Prop: "C08", Name: "zzH08a", Pkg: pkgCorerad, Tier: "quick", Bounds: "one shutdown call: terminate/reload, unicast_only, forwarding, write failure symbolic"},
+	{Prop: "C09", Name: "zzH09a", Pkg: pkgCorerad, Tier: "quick", Params: map[string]int{"k": 8, "k@thorough": 12}, Bounds: "0..k-1 consecutive messages with any hop limit != 255 followed by a valid one (k=8, thorough 12)"},
+	{Prop: "C10", Name: "zzH10c", Pkg: pkgCorerad, Tier: "quick", Bounds: "0..6 read timeouts followed by a message, a non-timeout net.Error or another error"},
 	{Prop: "C18", Name: "zzH18", Pkg: pkgCorerad, Tier: "quick", Bounds: "one message: RS/NS/NA or an RA with symbolic header, 0..2 prefix options (all fields symbolic, whole-second lifetimes incl. 0 and 2^32-1 s) and an unknown option; receipt instant any wall-clock ns value; sender an opaque string"},
 	{Prop: "C12", Name: "zzH12ra", Pkg: pkgCorerad, Tier: "quick", Bounds: "all header fields of both RAs symbolic"},
 	{Prop: "C12", Name: "zzH12mtu", Pkg: pkgCorerad, Tier: "quick", Bounds: "MTU option present/absent per side, values symbolic, distinct objects"},
